@@ -16,3 +16,24 @@ func (s *SwapV2) VerifSeed(c0, c1 types.CoinID, r0, r1 *big.Int) uint32 {
 	p.update(r0, r1)
 	return id
 }
+
+// VerifOrder returns what order id of pair (c0,c1) still wants to buy (of c0)
+// and still holds in escrow (of c1), from the in-memory book of the pair when
+// the order is loaded there (so that fills of the current block are seen) and
+// from the committed tree otherwise; (0,0) when the order is gone.
+func (s *SwapV2) VerifOrder(c0, c1 types.CoinID, id uint32) (*big.Int, *big.Int) {
+	pair := s.Pair(c0, c1)
+	if pair == nil {
+		return big.NewInt(0), big.NewInt(0)
+	}
+	pair.lockOrders.Lock()
+	defer pair.lockOrders.Unlock()
+	if pair.isOrderAlreadyUsed(id) {
+		return big.NewInt(0), big.NewInt(0)
+	}
+	o := pair.getOrder(id)
+	if o == nil || o.isEmpty() {
+		return big.NewInt(0), big.NewInt(0)
+	}
+	return new(big.Int).Set(o.WantBuy), new(big.Int).Set(o.WantSell)
+}
